@@ -3,13 +3,14 @@
      TeardownSrvInv, SrvS1, SrvS2, SrvEx   server: invariants and rank, S1, S2, examples and finding
      TeardownCliInv, CliInv1..5, CliLocks  client: invariants, lock order (S3)
      TeardownCliEx                      client: findings and example
-     TeardownCliLive1..7                client: liveness under fairness (S3)
+     TeardownCliLive1..7                client: liveness under fairness (S3), trigger closed
+     TeardownCliGone0..5                client: the same with the trigger "the peer is gone"
    The pieces are independent where they can be, so that they build in parallel. *)
 From Coq Require Import Arith Lia Bool List.
 From RecordUpdate Require Import RecordSet.
 Import RecordSetNotations.
 Import ListNotations.
-From H2V Require Import Impl.Teardown Proofs.TeardownGen Proofs.TeardownSrvInv Proofs.TeardownSrvS1 Proofs.TeardownSrvS2 Proofs.TeardownSrvEx Proofs.TeardownCliInv Proofs.TeardownCliInv1 Proofs.TeardownCliInv2 Proofs.TeardownCliInv3 Proofs.TeardownCliInv4 Proofs.TeardownCliInv5 Proofs.TeardownCliLocks Proofs.TeardownCliEx Proofs.TeardownCliLive1 Proofs.TeardownCliLive2a Proofs.TeardownCliLive2b Proofs.TeardownCliLive2c Proofs.TeardownCliLive2d Proofs.TeardownCliLive3 Proofs.TeardownCliLive4 Proofs.TeardownCliLive5 Proofs.TeardownCliLive6 Proofs.TeardownCliLive7.
+From H2V Require Import Impl.Teardown Proofs.TeardownGen Proofs.TeardownSrvInv Proofs.TeardownSrvS1 Proofs.TeardownSrvS2 Proofs.TeardownSrvEx Proofs.TeardownCliInv Proofs.TeardownCliInv1 Proofs.TeardownCliInv2 Proofs.TeardownCliInv3 Proofs.TeardownCliInv4 Proofs.TeardownCliInv5 Proofs.TeardownCliLocks Proofs.TeardownCliEx Proofs.TeardownCliLive1 Proofs.TeardownCliLive2a Proofs.TeardownCliLive2b Proofs.TeardownCliLive2c Proofs.TeardownCliLive2d Proofs.TeardownCliLive3 Proofs.TeardownCliLive4 Proofs.TeardownCliLive5 Proofs.TeardownCliLive6 Proofs.TeardownCliLive7 Proofs.TeardownCliGone0 Proofs.TeardownCliGone1 Proofs.TeardownCliGone2 Proofs.TeardownCliGone3 Proofs.TeardownCliGone4 Proofs.TeardownCliGone5.
 
 (* ---------------------------------------------------------------------------------------- *)
 (** * The statements of Props/Teardown.v                                                      *)
@@ -160,6 +161,15 @@ Theorem S3_no_stranding :
   leadsto r (fun s => closed s = true)
     (fun s => loops_exited s /\ (delivered s \/ raced s = true)).
 Proof using All. eapply CliL8.no_stranding; eauto. Qed.
+
+Theorem S3_gone_closes :
+  leadsto r (fun s => gone s = true) (fun s => closed s = true).
+Proof using All. eapply CliL11.gone_closes; eauto. Qed.
+
+Theorem S3_gone_no_stranding :
+  leadsto r (fun s => gone s = true)
+    (fun s => loops_exited s /\ (delivered s \/ raced s = true)).
+Proof using All. eapply CliL11.gone_no_stranding; eauto. Qed.
 End Runs.
 
 Theorem S3_example : exists s,
@@ -191,14 +201,13 @@ Theorem F4_stranded_by_close_race : exists s,
   (forall a, guard a s -> a = EPeerStall \/ a = ETick \/ a = EUserClose).
 Proof using All. exists CliEx.f4_state. apply CliEx.stranded_by_close_race; auto. Qed.
 
+Theorem S3_write_loop_never_sends_on_out : forall s a,
+  g_wl a -> guard a s -> outq (eff a s) <= outq s.
+Proof using All. intros; eapply CliP2.write_loop_never_sends_on_out; eauto. Qed.
+
 Theorem S3_out_parks_hold_nothing : forall s p m,
   reachable s -> parked_on_out s p -> ~ holds s p m.
 Proof using All. intros; eapply CliP2.out_parks_hold_nothing; eauto. Qed.
 
-Theorem F6_write_loop_parked_on_own_queue : exists s,
-  reachable s /\ only_env s /\
-  stalled s = false /\ gone s = false /\ done s = false /\
-  wl s = LSelfOut /\ rl s = RRead /\ outq s = cap /\ xc s = KRet.
-Proof using All. exists (CliEx.f6_state cap). apply CliEx.write_loop_parked_on_own_queue; auto. Qed.
 End Client.
 End Final.
